@@ -82,19 +82,41 @@ func runHub(rec *Rec, sc *HubScenario) (drift []string) {
 	app := NewApp(rec, nil)
 	app.Routes(peer)
 	holds := map[string]*Behav{}
+	sess := map[string]erpc.Session{}
 	defer func() {
-		for _, b := range holds {
-			releaseHold(b)
+		// the end of every history: Peer.Close() while the handlers that are still running run on; it must wait for
+		// those of live sessions, and return once they are through
+		// (judged at quiescent ends only: the sessions the model has live there, with a handler still running)
+		busyLive := 0
+		if k := len(sc.Steps); k > 0 && sc.Steps[k-1].Quiet {
+			for _, nme := range sc.Steps[k-1].Live {
+				if s := sess[nme]; s != nil && holds[nme] != nil && s.Health() {
+					busyLive++
+				}
+			}
 		}
 		fin := make(chan struct{})
 		go func() { peer.Close(); close(fin) }()
+		early := false
+		if busyLive > 0 {
+			select {
+			case <-fin:
+				early = true
+			case <-time.After(15 * time.Millisecond):
+			}
+		}
+		for _, b := range holds {
+			releaseHold(b)
+		}
+		returned := false
 		select {
 		case <-fin:
-		case <-time.After(500 * time.Millisecond):
+			returned = true
+		case <-time.After(3 * time.Second):
 		}
+		rec.Emit("PeerClose", "busylive", busyLive, "early", early, "returned", returned)
 		rec.Flush()
 	}()
-	sess := map[string]erpc.Session{}
 	remote := map[string]*Conn{}
 	var async sync.WaitGroup
 	waitAsync := func(d time.Duration) bool {
